@@ -76,14 +76,15 @@ def build(tree, settings):
 
 
 def spell(key, how):
-    return {"plain": key, "upper": key.upper(), "padded": "  " + key.capitalize() + " "}[how]
+    return {"plain": key, "upper": key.upper(), "padded": "  " + key.capitalize() + " ", "lowerpad": " " + key + "  ", "tabnl": "\t" + key + "\n",
+            "pathpad": " " + key + " ", "pathupper": key.upper()}[how]
 
 
 def overrides(tree, path, value, spelling, form, devmode, silent=None):
     parts = path.split(".")
     kw = {spell(parts[-1], spelling): value}
     for p in reversed(parts[:-1]):
-        kw = {p: kw}
+        kw = {(spell(p, spelling) if spelling.startswith("path") else p): kw}
     if form == "object" and len(parts) > 1:
         # nested settings given as an object of the tree's own nested class
         base = build(tree, None).settings
